@@ -19,27 +19,33 @@ EXTENDS DECore, Json
 CONSTANTS Node,        \* set of node ids (naturals)
           MaxTerm, MaxLog, MaxMsgs, Cap,
           Faults,      \* subset of {"Crash","Stop","Drop","Dup","Client","Heartbeat"}
-          MaxCrash, MaxDrop,  \* bounds on the number of crash/stop and drop/dup steps per behaviour
+          MaxCrash, MaxDrop, MaxCfg,  \* bounds on the number of crash/stop and drop/dup steps per behaviour
+          InitView,    \* [Node -> [Node -> {"V","L","X"}]]: the initial cluster each node's config file lists
           HistOn,      \* TRUE: keep the schedule (hist) for behaviour extraction
           EmitDepth    \* simulation: print the schedule of every behaviour reaching this depth
 
 VARIABLES ns, rnd, msgs, mon, hist
 
 vars == <<ns, rnd, msgs, mon, hist>>
-view == <<ns, rnd, msgs, mon>>
+stateView == <<ns, rnd, msgs, mon>>
 
-Peers(n) == Node \ {n}
 ZeroMap == [p \in Node |-> 0]
+\* membership views: "V" voter (status Active), "L" learner (status Promotable), "X" not a member
+VPeers(s, n) == {p \in Node \ {n} : s.view[p] = "V"}          \* Membership::voters()
+Targets(s, n) == {p \in Node \ {n} : s.view[p] \in {"V", "L"}}  \* replication_peers()
+InitSize(n) == Cardinality({p \in Node : InitView[n][p] # "X"})
+Peers(n) == VPeers(ns[n], n)
 
-InitNode == [up |-> TRUE, role |-> "F", term |-> 1, vote |-> NoVote, log |-> <<>>, commit |-> 0,
-             next |-> ZeroMap, match |-> ZeroMap, noop |-> 0, hs |-> NoHs]
+InitNode(n) == [up |-> TRUE, role |-> IF InitView[n][n] = "L" THEN "Ln" ELSE "F", term |-> 1, vote |-> NoVote,
+                log |-> <<>>, commit |-> 0, next |-> ZeroMap, match |-> ZeroMap, noop |-> 0, hs |-> NoHs,
+                view |-> InitView[n]]
 NoRound == [open |-> FALSE, pending |-> {}, resp |-> {}]
 
-Init == /\ ns = [n \in Node |-> InitNode]
+Init == /\ ns = [n \in Node |-> InitNode(n)]
         /\ rnd = [n \in Node |-> NoRound]
         /\ msgs = {}
         /\ mon = [granted |-> {}, led |-> {}, committed |-> {}, lcom |-> {}, maxTerm |-> [n \in Node |-> 1],
-                  crashes |-> 0, drops |-> 0]
+                  crashes |-> 0, drops |-> 0, unvoted |-> {}, cfgs |-> 0, badCommit |-> FALSE, badRestart |-> FALSE]
         /\ hist = <<>>
 
 Busy(n) == rnd[n].open
@@ -62,20 +68,61 @@ NoteState(m, nsn) ==
                                          : n \in {x \in Node : nsn[x].up}},
             !.lcom = @ \cup UNION {{nsn[n].log[j] : j \in {x \in 1..Len(nsn[n].log) : nsn[n].log[x].i <= nsn[n].commit}}
                                       : n \in {x \in Node : nsn[x].up /\ nsn[x].role = "L"}},
-            !.maxTerm = [n \in Node |-> IF nsn[n].up THEN Max(@[n], nsn[n].term) ELSE @[n]]]
+            !.maxTerm = [n \in Node |-> IF nsn[n].up THEN Max(@[n], nsn[n].term) ELSE @[n]],
+            \* C09, evaluated when a leader moves its commit index: current-term entry held by a majority of
+            \* the voters of the view the leader had when it decided
+            !.badCommit = @ \/ \E n \in Node :
+                 /\ nsn[n].up /\ nsn[n].role = "L" /\ ns[n].up /\ nsn[n].commit > ns[n].commit
+                 /\ LET N == nsn[n].commit
+                        base == IF ns[n].role = "L" THEN ns[n] ELSE nsn[n]
+                        vs == VPeers(base, n) \cup {n}
+                    IN ~(HasIdx(nsn[n].log, N) /\ EntryAt(nsn[n].log, N).t = nsn[n].term
+                         /\ IsMajority(Cardinality({v \in vs : HasIdx(nsn[v].log, N)
+                                                        /\ EntryAt(nsn[v].log, N) = EntryAt(nsn[n].log, N)}),
+                                       Cardinality(vs)))]
 
 Step(label, nsn, rndn, msgsn, monn) ==
   /\ ns' = nsn /\ rnd' = rndn /\ msgs' = msgsn
   /\ mon' = NoteState(monn, nsn)
   /\ hist' = IF HistOn THEN Append(hist, label) ELSE hist
 
+\* membership entries take effect when the node's commit index passes them (commit handler)
+RECURSIVE ApplyCfgFrom(_, _, _, _)
+ApplyCfgFrom(vw, log, j, upto) ==
+  IF j > Len(log) THEN vw
+  ELSE IF log[j].i > upto THEN vw
+  ELSE LET e == log[j]
+           v1 == IF e.k # "cfg" THEN vw
+                 ELSE IF e.v = "add" THEN [p \in Node |-> IF p \in e.ids /\ vw[p] = "X" THEN "L" ELSE vw[p]]
+                 ELSE IF e.v = "batchpromote" THEN [p \in Node |-> IF p \in e.ids /\ vw[p] # "X" THEN "V" ELSE vw[p]]
+                 ELSE IF e.v = "batchremove" THEN [p \in Node |-> IF p \in e.ids THEN "X" ELSE vw[p]]
+                 ELSE vw
+       IN ApplyCfgFrom(v1, log, j + 1, upto)
+\* entries with index in (from, upto]
+ApplyCfgRange(vw, log, from, upto) ==
+  ApplyCfgFrom(vw, SelectSeq(log, LAMBDA e : e.i > from), 1, upto)
+\* node n moved from state s0 to s1 (DECore operator); apply the membership entries it newly committed
+WithCfg(n, s0, s1) ==
+  LET v1 == IF s1.commit > s0.commit THEN ApplyCfgRange(s0.view, s1.log, s0.commit, s1.commit) ELSE s0.view
+      s2 == [s1 EXCEPT !.view = v1]
+  IN \* a learner that sees its own promotion becomes a follower; a leader that removed itself steps down
+     IF s2.role = "Ln" /\ v1[n] = "V" THEN StepDown(s2)
+     ELSE IF s2.role = "L" /\ v1[n] = "X" THEN StepDown(s2)
+     ELSE IF s2.role = "L"
+     THEN [s2 EXCEPT !.next = [p \in Node |-> IF p \in Targets(s2, n) \ Targets(s0, n)
+                                               THEN LastIdx(s2.log) + 1 ELSE s2.next[p]]]
+     ELSE s2
+
+\* a single-voter leader commits on its own log flush
+SoloCommit(n, s0, s1) == IF VPeers(s1, n) = {} THEN WithCfg(n, s0, [s1 EXCEPT !.commit = LastIdx(s1.log)]) ELSE s1
+
 \* leader: append entries to own log and send one request per peer -----------------------------
 LeaderSend(s, me, newEnts) ==
   LET lastBefore == LastIdx(s.log)
       s1 == [s EXCEPT !.log = @ \o newEnts]
-      reqs == {BuildAE(s1, me, p, lastBefore, newEnts, Cap) : p \in Peers(me)}
+      reqs == {BuildAE(s1, me, p, lastBefore, newEnts, Cap) : p \in Targets(s, me)}
       s2 == [s1 EXCEPT !.next = [p \in Node |->
-                 IF p = me THEN 0
+                 IF p \notin Targets(s, me) THEN s1.next[p]
                  ELSE SpecNext(s1, BuildAE(s1, me, p, lastBefore, newEnts, Cap))]]
   IN [st |-> s2, reqs |-> reqs]
 
@@ -83,7 +130,7 @@ BecomeLeader(s, me) ==
   LET s0 == [s EXCEPT !.role = "L", !.vote = [id |-> me, t |-> s.term, c |-> TRUE],
                       !.next = [p \in Node |-> IF p = me THEN 0 ELSE LastIdx(s.log) + 1],
                       !.match = ZeroMap, !.noop = 0]
-      noop == <<[i |-> LastIdx(s.log) + 1, t |-> s.term, k |-> "noop", v |-> ""]>>
+      noop == <<[i |-> LastIdx(s.log) + 1, t |-> s.term, k |-> "noop", v |-> "", ids |-> {}]>>
   IN LeaderSend(s0, me, noop)
 
 \* ------------------------------------------------------------------------------------------
@@ -107,9 +154,18 @@ StartRound(n) ==
   /\ Ready(n) /\ ns[n].role = "C" /\ ns[n].term < MaxTerm
   /\ LET s == Persist([ns[n] EXCEPT !.term = @ + 1, !.vote = [id |-> n, t |-> ns[n].term + 1, c |-> FALSE]])
          Q(p) == [ty |-> "VQ", from |-> n, to |-> p, t |-> s.term, li |-> LastIdx(s.log), lt |-> LastTerm(s.log)]
-     IN Step([a |-> "StartRound", n |-> n], [ns EXCEPT ![n] = s],
-             [rnd EXCEPT ![n] = [open |-> TRUE, pending |-> Peers(n), resp |-> {}]],
-             msgs \cup {Q(p) : p \in Peers(n)}, mon)
+         alone == IF "SingleNodeFromInitialConfig" \in Dev THEN InitSize(n) = 1 ELSE Peers(n) = {}
+     IN IF alone
+        THEN \* is_single_node_cluster(): wins without asking anybody
+             LET bl == BecomeLeader(s, n)
+             IN Step([a |-> "StartRound", n |-> n], [ns EXCEPT ![n] = Persist(SoloCommit(n, s, bl.st))], rnd,
+                     msgs \cup bl.reqs,
+                     [mon EXCEPT !.unvoted = @ \cup {[n |-> n, t |-> s.term, others |-> Peers(n)]}])
+        ELSE IF Peers(n) = {}
+        THEN Step([a |-> "StartRound", n |-> n], [ns EXCEPT ![n] = s], rnd, msgs, mon)   \* NoVotingMemberFound
+        ELSE Step([a |-> "StartRound", n |-> n], [ns EXCEPT ![n] = s],
+                  [rnd EXCEPT ![n] = [open |-> TRUE, pending |-> Peers(n), resp |-> {}]],
+                  msgs \cup {Q(p) : p \in Peers(n)}, mon)
 
 \* close the round of candidate c if nothing is pending any more
 AutoFinish(c, nsn, rndn, msgsn, monn, label) ==
@@ -159,7 +215,7 @@ FinishRound(n) ==
 DeliverAE(m, dup) ==
   /\ m.ty = "AE" /\ Ready(m.to)
   /\ LET s  == ns[m.to]
-         s1 == Persist(HandleAE_State(s, m))
+         s1 == Persist(WithCfg(m.to, s, HandleAE_State(s, m)))
          r  == HandleAE_Resp(s, m)
          ar == [ty |-> "AR", from |-> m.to, to |-> m.from, kind |-> r.kind, t |-> r.t,
                 mi |-> r.mi, mt |-> r.mt, ct |-> r.ct, ci |-> r.ci]
@@ -171,7 +227,7 @@ DeliverAE(m, dup) ==
 DeliverAR(m) ==
   /\ m.ty = "AR" /\ Ready(m.to)
   /\ LET s  == ns[m.to]
-         s1 == Persist(AR_State(s, m, Peers(m.to)))
+         s1 == Persist(WithCfg(m.to, s, AR_State(s, m, Peers(m.to))))
      IN Step([a |-> "DeliverAR", from |-> m.from, to |-> m.to, kind |-> m.kind, mi |-> m.mi, t |-> m.t],
              [ns EXCEPT ![m.to] = s1], rnd, msgs \ {m}, mon)
 
@@ -191,12 +247,43 @@ Heartbeat(n) ==
 
 ClientWrite(n, v) ==
   /\ Ready(n) /\ ns[n].role = "L" /\ LastIdx(ns[n].log) < MaxLog
-  /\ LET e  == <<[i |-> LastIdx(ns[n].log) + 1, t |-> ns[n].term, k |-> "cmd", v |-> v]>>
+  /\ LET e  == <<[i |-> LastIdx(ns[n].log) + 1, t |-> ns[n].term, k |-> "cmd", v |-> v, ids |-> {}]>>
          ls == LeaderSend(ns[n], n, e)
      IN Step([a |-> "Client", n |-> n, op |-> "put", key |-> "k1", val |-> v],
-             [ns EXCEPT ![n] = ls.st], rnd, msgs \cup ls.reqs, mon)
+             [ns EXCEPT ![n] = SoloCommit(n, ns[n], ls.st)], rnd, msgs \cup ls.reqs, mon)
+
+\* ---- membership changes (leader side) --------------------------------------------------------
+CfgEntry(s, kind, ids) == <<[i |-> LastIdx(s.log) + 1, t |-> s.term, k |-> "cfg", v |-> kind, ids |-> ids]>>
+
+Join(l, p) ==      \* JoinCluster request of node p handled by leader l
+  /\ Ready(l) /\ ns[l].role = "L" /\ ns[l].view[p] = "X" /\ LastIdx(ns[l].log) < MaxLog /\ mon.cfgs < MaxCfg
+  /\ LET ls == LeaderSend(ns[l], l, CfgEntry(ns[l], "add", {p}))
+     IN Step([a |-> "Join", n |-> p, to |-> l], [ns EXCEPT ![l] = SoloCommit(l, ns[l], ls.st)], rnd,
+             msgs \cup ls.reqs, [mon EXCEPT !.cfgs = @ + 1])
+
+\* learners the leader considers caught up (match within the catch-up threshold of the commit index)
+ReadyLearners(s, l) == {p \in Node \ {l} : s.view[p] = "L" /\ s.commit <= s.match[p] + 1}
+SafeBatch(cur, avail) == IF (cur + avail) % 2 = 1 THEN avail ELSE (IF avail = 0 THEN 0 ELSE avail - 1)
+Promote(l, S) ==   \* handle_promote_ready_learners: BatchPromote of S
+  /\ Ready(l) /\ ns[l].role = "L" /\ S # {} /\ S \subseteq ReadyLearners(ns[l], l)
+  /\ LastIdx(ns[l].log) < MaxLog /\ mon.cfgs < MaxCfg
+  /\ IF "BatchPromoteAnySize" \in Dev
+     THEN Cardinality(S) = SafeBatch(Cardinality(VPeers(ns[l], l)) + 1, Cardinality(ReadyLearners(ns[l], l)))
+     ELSE \* repaired design: one server at a time, and only when no earlier change is still uncommitted
+          /\ Cardinality(S) = 1
+          /\ \A j \in 1..Len(ns[l].log) : ns[l].log[j].k = "cfg" => ns[l].log[j].i <= ns[l].commit
+  /\ LET ls == LeaderSend(ns[l], l, CfgEntry(ns[l], "batchpromote", S))
+     IN Step([a |-> "Promote", n |-> l], [ns EXCEPT ![l] = SoloCommit(l, ns[l], ls.st)], rnd,
+             msgs \cup ls.reqs, [mon EXCEPT !.cfgs = @ + 1])
+
+Remove(l, p) ==    \* zombie report -> BatchRemove
+  /\ Ready(l) /\ ns[l].role = "L" /\ p # l /\ ns[l].view[p] # "X" /\ LastIdx(ns[l].log) < MaxLog /\ mon.cfgs < MaxCfg
+  /\ LET ls == LeaderSend(ns[l], l, CfgEntry(ns[l], "batchremove", {p}))
+     IN Step([a |-> "Zombie", n |-> p, to |-> l], [ns EXCEPT ![l] = SoloCommit(l, ns[l], ls.st)], rnd,
+             msgs \cup ls.reqs, [mon EXCEPT !.cfgs = @ + 1])
 
 DownNode(s) == [s EXCEPT !.up = FALSE, !.role = "Down", !.term = 0, !.vote = NoVote, !.commit = 0,
+                         !.view = [p \in Node |-> "X"],
                          !.next = ZeroMap, !.match = ZeroMap, !.noop = 0]
 \* the state machine of the reference harness persists what it applied; applied = commit
 Crash(n) ==
@@ -213,11 +300,16 @@ Restart(n) ==
   /\ ~ns[n].up
   /\ LET s == ns[n]
      IN Step([a |-> "Restart", n |-> n],
-             [ns EXCEPT ![n] = [s EXCEPT !.up = TRUE, !.role = "F",
+             [ns EXCEPT ![n] = [s EXCEPT !.up = TRUE, !.role = IF InitView[n][n] = "L" THEN "Ln" ELSE "F",
+                                  !.view = IF "MembershipNotReplayedOnRestart" \in Dev THEN InitView[n]
+                                           ELSE ApplyCfgRange(InitView[n], s.log, 0, s.commit),
                                   !.term = IF s.hs.saved THEN s.hs.term ELSE 1,
                                   !.vote = IF s.hs.saved /\ s.hs.vid # 0
                                            THEN [id |-> s.hs.vid, t |-> s.hs.vt, c |-> FALSE] ELSE NoVote]],
-             rnd, msgs, mon)
+             rnd, msgs,
+             [mon EXCEPT !.badRestart = @ \/
+                 (IF "MembershipNotReplayedOnRestart" \in Dev THEN InitView[n] ELSE ApplyCfgRange(InitView[n], s.log, 0, s.commit))
+                   # ApplyCfgRange(InitView[n], s.log, 0, s.commit)])
 
 Next ==
   \/ \E n \in Node : Timeout(n) \/ StartRound(n) \/ FinishRound(n)
@@ -228,6 +320,8 @@ Next ==
   \/ ("Client" \in Faults /\ \E n \in Node : ClientWrite(n, "v"))
   \/ ("Crash" \in Faults /\ \E n \in Node : Crash(n) \/ Restart(n))
   \/ ("Stop" \in Faults /\ \E n \in Node : Stop(n) \/ Restart(n))
+  \/ ("Member" \in Faults /\ \E l, p \in Node : Join(l, p) \/ Remove(l, p))
+  \/ ("Member" \in Faults /\ \E l \in Node : \E S \in SUBSET Node : Promote(l, S))
 
 Spec == Init /\ [][Next]_vars
 
@@ -254,13 +348,21 @@ C07_FollowerCommitMatches ==
   \A n \in Node : (ns[n].up /\ ns[n].role \in {"F", "C"}) =>
      \A j \in 1..Len(ns[n].log) : ns[n].log[j].i <= ns[n].commit => ns[n].log[j] \in mon.lcom
 \* C09: a leader's commit index is backed by a majority holding the entry, of the current term
-C09_CommitRule ==
-  \A n \in Node : (ns[n].up /\ ns[n].role = "L" /\ ns[n].commit > 0 /\ HasIdx(ns[n].log, ns[n].commit)) =>
-     LET N == ns[n].commit
-         e == EntryAt(ns[n].log, N)
-     IN e.t = ns[n].term =>
-          IsMajority(Cardinality({v \in Node : HasIdx(ns[v].log, N) /\ EntryAt(ns[v].log, N) = e}),
-                     Cardinality(Node))
+C09_CommitRule == ~mon.badCommit
+
+\* C03: a node that became leader without asking anybody had no other voter in its view
+C03_SoleVoterShortcut == \A u \in mon.unvoted : u.others = {}
+\* C26: any two quorums that nodes may use (election or commit) intersect
+DisjointMaj(A, B) == \E Qa \in SUBSET A, Qb \in SUBSET B :
+                        IsMajority(Cardinality(Qa), Cardinality(A)) /\ IsMajority(Cardinality(Qb), Cardinality(B))
+                        /\ Qa \cap Qb = {}
+C26_QuorumsIntersect ==
+  \A i, j \in {x \in Node : ns[x].up /\ ns[x].view[x] = "V"} :
+     ~DisjointMaj(VPeers(ns[i], i) \cup {i}, VPeers(ns[j], j) \cup {j})
+\* C27: learners never lead, never are candidates
+C27_LearnersPassive == \A n \in Node : (ns[n].up /\ ns[n].view[n] = "L") => ns[n].role \in {"Ln"}
+\* C28: a live node's view is the fold of the membership entries it has committed over its initial view
+C28_ViewAfterRestart == ~mon.badRestart
 
 \* behaviour extraction (simulation mode): print the schedule of every behaviour of depth D
 Emit == (Len(hist) = EmitDepth) => PrintT(<<"REPLAY", ToJson(hist)>>)
